@@ -97,6 +97,46 @@ def folder(ctx) -> Folder:
     return ctx._folder
 
 
+def table_data(ctx, module, name):
+    """A module-level data table as plain Python data: folded from its literal when it is one, otherwise (built or
+    post-processed by package code at import: arrays, records ...) evaluated by the interpreter and converted back."""
+    try:
+        return folder(ctx).const(module, name)
+    except AnalysisError:
+        pass
+    from ptstat.symx import Interp
+    from ptstat.symval import Vec as _Vec
+    from ptstat.symlib import NTuple as _NT
+    I = Interp(ctx.src)
+    v = I.global_name(module, name)
+
+    def plain(x):
+        if isinstance(x, _Vec):
+            return [plain(i) for i in x.items]
+        if isinstance(x, _NT):
+            return tuple(plain(i) for i in x)
+        if isinstance(x, dict):
+            return {plain(k): plain(i) for k, i in x.items()}
+        if isinstance(x, (list, tuple)):
+            return type(x)(plain(i) for i in x) if type(x) in (list, tuple) else [plain(i) for i in x]
+        if isinstance(x, (str, bool)) or x is None:
+            return x
+        try:
+            e = sp.sympify(x)
+        except (sp.SympifyError, TypeError):
+            raise AnalysisError(f"{module}.{name} holds {x!r}, which is not plain data")
+        if e.is_Integer:
+            return int(e)
+        if e.is_number and e.is_real:
+            return float(e)
+        if e is sp.nan:
+            return float("nan")
+        if e.is_number:
+            return complex(e)
+        raise AnalysisError(f"{module}.{name} holds the non-numeric value {x}")
+    return plain(v)
+
+
 def points(ctx):
     return 200 if ctx.thorough else 8
 
